@@ -81,7 +81,7 @@ func (c *client) Do(req *http.Request) (*http.Response, error) {
 	r := w.Script(len(w.Sent), s)
 	mk := func(code int, b string) (*http.Response, error) {
 		return &http.Response{StatusCode: code, Status: fmt.Sprintf("%d x", code), Proto: "HTTP/1.1", ProtoMajor: 1, ProtoMinor: 1,
-			Header: http.Header{"Content-Type": []string{"application/json"}, "X-Request-Id": []string{"rid-1"}, "Etag": []string{"\"v1\""}}, Body: io.NopCloser(strings.NewReader(b)), Request: req}, nil
+			Header: http.Header{"Content-Type": []string{"application/json"}, "X-Request-Id": []string{"rid-1"}, "Etag": []string{"\"v1\""}, "X-Auth": []string{"Bearer abc123"}}, Body: io.NopCloser(strings.NewReader(b)), Request: req}, nil
 	}
 	k := len(w.Sent)
 	switch r.Kind {
